@@ -1447,7 +1447,7 @@ func boundsRule(r *Run, w *World, ruleID, pkg string, scope []*ssa.Function) {
 					// otherwise: every allocation of the struct must give the field a map before
 					// the object can be seen by anyone else
 					if ok, why := w.mapFieldNeverNil(fv); !ok {
-						r.Fail(fnName(fn)+" map write "+Term(x.Map), x.Pos(), "write to a map field that may be nil: "+why)
+						r.Fail(fnName(fn)+" map write "+Term(x.Map), x.Pos(), "write to a map field that is not known to hold a map of its own (it may be nil - a write panics - or a map shared with another owner that is guarded by a different lock): "+why)
 					} else {
 						r.OK(fnName(fn)+" map write "+Term(x.Map), x.Pos(), "the field is given a map in the block that allocates the struct, and is never set to nil")
 					}
@@ -1551,15 +1551,34 @@ func (w *World) mapFieldNeverNil(fv *types.Var) (bool, string) {
 		mapFieldCache[fv] = [2]string{k, why}
 		return ok, why
 	}
-	nonNilMap := func(v ssa.Value) bool {
+	var nonNilMapD func(v ssa.Value, depth int) bool
+	nonNilMapD = func(v ssa.Value, depth int) bool {
 		switch y := stripConv(v).(type) {
 		case *ssa.MakeMap:
 			return true
 		case *ssa.Const:
 			return y.Value != nil
+		case *ssa.Call:
+			// a constructor helper that returns a map it has just made, on every path
+			callee := y.Call.StaticCallee()
+			if callee == nil || depth > 2 || len(callee.Blocks) == 0 || callee.Signature.Results().Len() != 1 {
+				return false
+			}
+			rets := returnsOf(callee)
+			if len(rets) == 0 {
+				return false
+			}
+			for _, rt := range rets {
+				ok := allPhiLeaves(rt.Results[0], func(l ssa.Value) bool { return nonNilMapD(l, depth+1) })
+				if !ok {
+					return false
+				}
+			}
+			return true
 		}
 		return false
 	}
+	nonNilMap := func(v ssa.Value) bool { return nonNilMapD(v, 0) }
 	// (a) all stores
 	for _, a := range w.FieldAccesses(fv) {
 		switch a.Kind {
